@@ -113,7 +113,8 @@ Definition guard_arg (d : option dt) (dev : option nat) (x : arg) : arg :=
   | AOther _ => x
   | _ => match dtype_of x, d with
          | Some da, Some d' => if Bool.eqb (is_float da) (is_float d') then conv_to defdt d dev x else conv_to defdt None dev x
-         | _, _ => strip x
+         | _, None => conv_to defdt None dev x
+         | None, Some _ => strip x
          end
   end.
 Definition cat_arg (d : option dt) (x : arg) : arg :=
@@ -123,13 +124,12 @@ Definition gfix (d : option dt) (dev : option nat) (k : nat) := fix go (l : list
   | [] => []
   | x :: r => (if i <? k then guard_arg d dev x else conv_to defdt d dev x) :: go r (S i)
   end.
-Definition nd_to (c : cls) (d : option dt) (dev : option nat) (nd : list (Z * value)) : list (Z * value) :=
-  if cls_eqb c CIdentity then set_key k_dtype (dt_val d) (set_key k_device (dev_val dev) nd) else nd.
-
 Lemma conv_to_op d dev c ch dn nd at_ :
   conv_to defdt d dev (AOp c ch dn nd at_) =
   if guarded c then AOp c (gfix d dev (nargs ch dn) ch 0) dn (nd_to c d dev nd) (dflt c)
   else if cls_eqb c CCat then AOp c (map (cat_arg d) ch) dn (set_key k_output_device (dev_val dev) nd) (dflt c)
+  else if cls_eqb c CPermutation then AOp c (strip_list ch) dn nd (perm_attrs d (dflt c))
+  else if cls_eqb c CZero then AOp c (strip_list ch) dn (nd_to c d dev nd) (dflt c)
   else AOp c (map (conv_to defdt d dev) ch) dn nd (dflt c).
 Proof.
   reflexivity.
@@ -155,7 +155,10 @@ Lemma to_safe_op c ch dn nd at_ :
   to_safe (AOp c ch dn nd at_) =
   is_float_o (dtype_of (AOp c ch dn nd at_)) &&
   (if guarded c then sfix (nargs ch dn) ch 0
-   else if cls_eqb c CCat then forallb to_safe_sub ch else forallb to_safe ch).
+   else if cls_eqb c CCat then forallb to_safe_sub ch
+   else if cls_eqb c CPermutation then forallb is_index ch
+   else if cls_eqb c CZero then forallb (fun x => negb (is_diff x)) ch
+   else forallb to_safe ch).
 Proof.
   reflexivity.
 Qed.
@@ -213,7 +216,11 @@ Proof.
     + apply map_ext_Forall. apply Forall_skipn. eapply Forall_impl; [|exact H]. simpl. auto.
   - destruct (cls_eqb c CCat).
     + f_equal. rewrite map_map. apply map_ext_Forall. eapply Forall_impl; [|exact CA]. simpl. auto.
-    + f_equal. rewrite map_map. apply map_ext_Forall. eapply Forall_impl; [|exact H]. simpl. auto.
+    + assert (SS : strip_list (map strip ch) = strip_list ch).
+      { rewrite !strip_list_map, map_map. apply map_ext. intros a. apply strip_strip. }
+      destruct (cls_eqb c CPermutation); [now rewrite SS|].
+      destruct (cls_eqb c CZero); [now rewrite SS|].
+      f_equal. rewrite map_map. apply map_ext_Forall. eapply Forall_impl; [|exact H]. simpl. auto.
 Qed.
 
 Lemma conv_type_arg_strip d x : conv_type_arg defdt d (strip x) = conv_type_arg defdt d x.
@@ -235,7 +242,10 @@ Proof.
   { intros f l HF. induction HF as [|x r Hx Hr IH]; simpl; [reflexivity|]. now rewrite Hx, IH. }
   destruct (guarded c).
   - rewrite !sfix_spec, firstn_map, skipn_map. f_equal; apply FB; auto using Forall_firstn, Forall_skipn.
-  - destruct (cls_eqb c CCat); apply FB; auto.
+  - destruct (cls_eqb c CCat); [apply FB; auto|].
+    destruct (cls_eqb c CPermutation); [apply FB; apply Forall_forall; intros x _; destruct x; reflexivity|].
+    destruct (cls_eqb c CZero); [|apply FB; auto].
+    apply FB. apply Forall_forall. intros x _. destruct x; reflexivity.
 Qed.
 Lemma to_safe_sub_strip x : to_safe_sub (strip x) = to_safe_sub x.
 Proof. destruct x; try reflexivity. apply (to_safe_strip (AOp c ch dn nd at_)). Qed.
@@ -342,7 +352,10 @@ Proof.
     assert (SAFE : match d with
                    | Some d' => is_float d' = true /\
                        (if guarded c then sfix (nargs ch dn) ch 0
-                        else if cls_eqb c CCat then forallb to_safe_sub ch else forallb to_safe ch) = true
+                        else if cls_eqb c CCat then forallb to_safe_sub ch
+                        else if cls_eqb c CPermutation then forallb is_index ch
+                        else if cls_eqb c CZero then forallb (fun x => negb (is_diff x)) ch
+                        else forallb to_safe ch) = true
                    | None => True
                    end).
     { destruct d as [d'|]; [|exact I]. destruct OK as [F S]. rewrite to_safe_op in S. apply andb_prop in S as [_ S]. auto. }
@@ -362,12 +375,13 @@ Proof.
         assert (Hin : In x ch) by (rewrite <- (firstn_skipn (nargs ch dn) ch); apply in_or_app; now left).
         rewrite Forall_forall in H. specialize (H x Hin).
         destruct x as [t|v|c0 ch0 dn0 nd0 at0]; [| reflexivity |].
-        -- unfold guard_arg. simpl dtype_of. destruct d as [d'|]; [|apply sk_strip].
+        -- unfold guard_arg. simpl dtype_of. destruct d as [d'|]; [|apply H; exact I].
            destruct SAFE as [F _]. destruct (Bool.eqb (is_float (tdt t)) (is_float d')) eqn:Q.
            ++ apply H. split; [exact F|]. simpl. rewrite F in Q. destruct (is_float (tdt t)); [reflexivity|discriminate].
            ++ apply H. exact I.
-        -- unfold guard_arg. destruct (dtype_of (AOp c0 ch0 dn0 nd0 at0)) as [da|]; [|apply sk_strip].
-           destruct d as [d'|]; [|apply sk_strip]. destruct SAFE as [F S].
+        -- unfold guard_arg. destruct d as [d'|]; [|destruct (dtype_of _); apply H; exact I].
+           destruct (dtype_of (AOp c0 ch0 dn0 nd0 at0)) as [da|]; [|apply sk_strip].
+           destruct SAFE as [F S].
            rewrite sfix_spec, Nat.sub_0_r in S. apply andb_prop in S as [S1 _].
            pose proof (forallb_In _ _ _ S1 Hx) as Sx.
            destruct (Bool.eqb (is_float da) (is_float d')); apply H; [split; assumption|exact I].
@@ -379,7 +393,9 @@ Proof.
       * rewrite !sk_op. f_equal. rewrite !sk_list_map, map_map. apply map_ext_Forall. apply Forall_forall. intros x Hx.
         rewrite Forall_forall in H. specialize (H x Hx). destruct d as [d'|]; simpl; [|apply sk_strip].
         destruct SAFE as [F S]. apply TYP; auto. eapply forallb_In; eauto.
-      * rewrite !sk_op. f_equal. rewrite !sk_list_map, map_map. apply map_ext_Forall. apply Forall_forall. intros x Hx.
+      * destruct (cls_eqb c CPermutation); [rewrite !sk_op; now rewrite sk_list_strip|].
+        destruct (cls_eqb c CZero); [rewrite !sk_op; now rewrite sk_list_strip|].
+        rewrite !sk_op. f_equal. rewrite !sk_list_map, map_map. apply map_ext_Forall. apply Forall_forall. intros x Hx.
         rewrite Forall_forall in H. apply (H x Hx). destruct d as [d'|]; [|exact I]. destruct SAFE as [F S].
         split; [exact F|]. eapply forallb_In; eauto.
 Qed.
@@ -424,7 +440,10 @@ Lemma meth_call_S f m c ch dn nd at_ n :
             match map_st (on_arg (meth_call defdt f) m) (skipn k ch) n1 with
             | Some (kv', n2) =>
                 if cls_eqb c CIdentity
-                then again c dn (a' ++ kv') (set_key k_dtype (dt_val d) (set_key k_device (dev_val dev) nd)) n2
+                then match keep_or k_dtype (dt_val d) nd, keep_or k_device (dev_val dev) nd with
+                     | Some vdt, Some vdev => again c dn (a' ++ kv') (set_key k_dtype vdt (set_key k_device vdev nd)) n2
+                     | _, _ => None
+                     end
                 else again c dn (a' ++ kv') nd n2
             | None => None
             end
@@ -434,6 +453,21 @@ Lemma meth_call_S f m c ch dn nd at_ n :
         match again c dn ch (set_key k_output_device (dev_val dev) nd) n with
         | Some (res, n1) => match d with Some d' => meth_call defdt f (MType d') res n1 | None => Some (res, n1) end
         | None => None
+        end
+      else if cls_eqb c CZero then
+        match keep_or k_dtype (dt_val d) nd, keep_or k_device (dev_val dev) nd with
+        | Some vdt, Some vdev =>
+            match ctor defdt c (firstn k ch) (zero_kw vdt vdev) with Some r => Some (r, n) | None => None end
+        | _, _ => None
+        end
+      else if cls_eqb c CPermutation then
+        match ch, lookup k_validate_args nd with
+        | [ATensor p; ATensor q], Some va =>
+            match ctor defdt c [ATensor p; ATensor q] [(k_validate_args, AOther va)] with
+            | Some (AOp c' ch' dn' nd' at') => Some (AOp c' ch' dn' nd' (perm_attrs d at'), n)
+            | _ => None
+            end
+        | _, _ => None
         end
       else generic
   | MType d =>
@@ -446,6 +480,11 @@ Lemma meth_call_S f m c ch dn nd at_ n :
         | _, _, _ => None
         end
       else if cls_eqb c CTransposePermutation then Some (AOp c ch dn nd (set_key k_dtype (VDtype d) at_), n)
+      else if cls_eqb c CZero then
+        match lookup k_device nd with
+        | Some vdev => match ctor defdt c (firstn k ch) (zero_kw (VDtype d) vdev) with Some r => Some (r, n) | None => None end
+        | None => None
+        end
       else generic
   end.
 Proof. reflexivity. Qed.
@@ -536,8 +575,8 @@ Proof.
                       | Some da, Some d' =>
                           if Bool.eqb (is_float da) (is_float d') then on_arg (meth_call defdt f) (MTo (Some d') dev) a n
                           else on_arg (meth_call defdt f) (MTo None dev) a n
-                      | Some _, None => None
-                      | None, _ => None
+                      | _, None => on_arg (meth_call defdt f) (MTo None dev) a n
+                      | None, Some _ => None
                       end
                end) by (destruct a; reflexivity).
   rewrite OG in E. clear OG.
@@ -547,7 +586,8 @@ Proof.
                | _ => match dtype_of a, d with
                       | Some da, Some d' => if Bool.eqb (is_float da) (is_float d') then conv_to defdt d dev a
                                             else conv_to defdt None dev a
-                      | _, _ => strip a
+                      | _, None => conv_to defdt None dev a
+                      | None, Some _ => strip a
                       end
                end) by (destruct a; reflexivity).
   rewrite GA. clear GA.
@@ -555,29 +595,37 @@ Proof.
                to_safe_sub a = true -> to_safe a = true).
   { intros da d' D Q F S. destruct a as [t|v|c ch dn nd at_]; [| reflexivity | exact S].
     simpl in D. inversion D; subst. simpl. rewrite F in Q. destruct (is_float (tdt t)); [reflexivity|discriminate]. }
+  assert (NONE : on_arg (meth_call defdt f) (MTo None dev) a n = Some (a', n') ->
+                 strip a' = conv_to defdt None dev a /\ n <= n').
+  { intros E0. apply (on_arg_ok f IH (MTo None dev) _ n a' n' W L eq_refl E0). }
   destruct a as [t|v|c ch dn nd at_].
-  - destruct (dtype_of (ATensor t)) as [da|] eqn:D; [|discriminate]. destruct d as [d'|]; [|discriminate].
-    destruct G as [F S]. destruct (Bool.eqb (is_float da) (is_float d')) eqn:Q.
-    + apply (on_arg_ok f IH (MTo (Some d') dev) _ n a' n' W L); [|exact E].
-      simpl. rewrite F. simpl. exact (TS da d' eq_refl Q F S).
-    + apply (on_arg_ok f IH (MTo None dev) _ n a' n' W L eq_refl E).
+  - destruct d as [d'|].
+    + destruct (dtype_of (ATensor t)) as [da|] eqn:D; [|discriminate].
+      destruct G as [F S]. destruct (Bool.eqb (is_float da) (is_float d')) eqn:Q.
+      * apply (on_arg_ok f IH (MTo (Some d') dev) _ n a' n' W L); [|exact E].
+        simpl. rewrite F. simpl. exact (TS da d' eq_refl Q F S).
+      * now apply NONE.
+    + destruct (dtype_of (ATensor t)); now apply NONE.
   - inversion E; subst. split; [reflexivity|lia].
-  - destruct (dtype_of (AOp c ch dn nd at_)) as [da|] eqn:D; [|discriminate]. destruct d as [d'|]; [|discriminate].
-    destruct G as [F S]. destruct (Bool.eqb (is_float da) (is_float d')) eqn:Q.
-    + apply (on_arg_ok f IH (MTo (Some d') dev) _ n a' n' W L); [|exact E].
-      unfold safe_arg. rewrite F. simpl. exact (TS da d' eq_refl Q F S).
-    + apply (on_arg_ok f IH (MTo None dev) _ n a' n' W L eq_refl E).
+  - destruct d as [d'|].
+    + destruct (dtype_of (AOp c ch dn nd at_)) as [da|] eqn:D; [|discriminate].
+      destruct G as [F S]. destruct (Bool.eqb (is_float da) (is_float d')) eqn:Q.
+      * apply (on_arg_ok f IH (MTo (Some d') dev) _ n a' n' W L); [|exact E].
+        unfold safe_arg. rewrite F. simpl. exact (TS da d' eq_refl Q F S).
+      * now apply NONE.
+    + destruct (dtype_of (AOp c ch dn nd at_)); now apply NONE.
 Qed.
 
 Lemma sk_guard_arg d dev x : guard_ok d x -> sk (guard_arg d dev x) = sk x.
 Proof.
   intros G. destruct x as [t|v|c0 ch0 dn0 nd0 at0]; [| reflexivity |].
-  - unfold guard_arg. simpl dtype_of. destruct d as [d'|]; [|apply sk_strip]. destruct G as [F _].
+  - unfold guard_arg. simpl dtype_of. destruct d as [d'|]; [|apply sk_conv_to; exact I]. destruct G as [F _].
     destruct (Bool.eqb (is_float (tdt t)) (is_float d')) eqn:Q.
     + apply sk_conv_to. split; [exact F|]. simpl. rewrite F in Q. destruct (is_float (tdt t)); [reflexivity|discriminate].
     + apply sk_conv_to. exact I.
-  - unfold guard_arg. destruct (dtype_of (AOp c0 ch0 dn0 nd0 at0)) as [da|]; [|apply sk_strip].
-    destruct d as [d'|]; [|apply sk_strip]. destruct G as [F S].
+  - unfold guard_arg. destruct d as [d'|]; [|destruct (dtype_of _); apply sk_conv_to; exact I].
+    destruct (dtype_of (AOp c0 ch0 dn0 nd0 at0)) as [da|]; [|apply sk_strip].
+    destruct G as [F S].
     destruct (Bool.eqb (is_float da) (is_float d')); apply sk_conv_to; [split; assumption|exact I].
 Qed.
 
@@ -591,6 +639,24 @@ Proof.
   pose proof (forallb_In _ _ _ HDT Hd) as Q. simpl in Q. rewrite Hk in Q. discriminate.
 Qed.
 
+
+Lemma keys_set2 (nd : list (Z * value)) v1 v2 :
+  has_key k_device nd = true -> has_key k_dtype nd = true -> keys (set_key k_dtype v1 (set_key k_device v2 nd)) = keys nd.
+Proof.
+  intros H1 H2. rewrite set_key_keys_in.
+  - now apply set_key_keys_in.
+  - unfold has_key. rewrite lookup_set_key. destruct (Z.eqb k_dtype k_device); [reflexivity|]. exact H2.
+Qed.
+Lemma guarded_not_zero c : guarded c = true -> cls_eqb c CZero = false.
+Proof.
+  unfold guarded. intros H. apply orb_prop in H as [H|H]; [apply orb_prop in H as [H|H]|];
+    apply cls_eqb_eq in H; subst; reflexivity.
+Qed.
+Lemma guarded_not_perm c : guarded c = true -> cls_eqb c CPermutation = false.
+Proof.
+  unfold guarded. intros H. apply orb_prop in H as [H|H]; [apply orb_prop in H as [H|H]|];
+    apply cls_eqb_eq in H; subst; reflexivity.
+Qed.
 
 (* ------------------------------------------------------------------ the branches of one meth_call step *)
 Lemma children_ok m c ch dn nd at_ :
@@ -658,15 +724,15 @@ Proof.
   { intros nd' K A. assert (NOK' : node_okb c (a' ++ kv') dn nd' = true).
     { rewrite (node_okb_keys c _ dn nd nd' K). rewrite <- NOK. now apply node_okb_sk. }
     rewrite (again_ok _ _ _ _ _ NOK') in A. inversion A; subst. split; [|lia]. now rewrite strip_op, ST. }
-  rewrite conv_to_op, G. fold k. unfold nd_to.
+  rewrite conv_to_op, G. fold k. unfold nd_to, keeps_dt.
   destruct (cls_eqb c CIdentity) eqn:ID.
-  - apply FIN; [|exact E]. apply cls_eqb_eq in ID. subst c.
+  - simpl. destruct (keep_or k_dtype (dt_val d) nd) as [vdt|]; [|discriminate].
+    destruct (keep_or k_device (dev_val dev) nd) as [vdev|]; [|discriminate].
+    apply FIN; [|exact E]. apply cls_eqb_eq in ID. subst c.
     assert (H1 : has_key k_device nd = true) by (eapply dt_key_in_nd; eauto; vm_compute; tauto).
     assert (H2 : has_key k_dtype nd = true) by (eapply dt_key_in_nd; eauto; vm_compute; tauto).
-    rewrite set_key_keys_in.
-    + now apply set_key_keys_in.
-    + unfold has_key. rewrite lookup_set_key. destruct (Z.eqb k_dtype k_device); [reflexivity|]. exact H2.
-  - apply FIN; [reflexivity|exact E].
+    now apply keys_set2.
+  - rewrite (guarded_not_zero c G). simpl. apply FIN; [reflexivity|exact E].
 Qed.
 
 
@@ -749,6 +815,132 @@ Proof.
     apply lookup_in in Lk. destruct (FOUR k (in_or_app _ _ _ (or_intror Lk))) as [?|[?|[?|?]]]; congruence.
 Qed.
 
+(* ------------------------------------------------------------------ overrides that call the constructor with explicit keywords *)
+Lemma ctor_explicit c ch nd2 kw :
+  node_okb c ch [] nd2 = true -> znodupb (keys kw) = true ->
+  (forall k, lookup k kw = option_map AOther (lookup k nd2)) ->
+  ctor defdt c (firstn (nargs ch []) ch) kw = Some (AOp c ch [] nd2 (dflt c)).
+Proof.
+  intros NOK ND LK. change (firstn (nargs ch []) ch) with (args_of ch []).
+  apply ctor_stored_gen; [apply spec_ok_all|exact NOK|now apply znodupb_nodup|].
+  intros k. change (dkw_of ch [] ++ lift nd2) with (lift nd2). now rewrite lookup_lift, LK.
+Qed.
+
+Lemma set_key_same {V} k (v : V) l : lookup k l = Some v -> set_key k v l = l.
+Proof.
+  induction l as [|[k' v'] r IH]; simpl; [discriminate|].
+  destruct (Z.eqb_spec k k') as [->|N]; intros H.
+  - inversion H; subst. reflexivity.
+  - now rewrite IH.
+Qed.
+
+(* a stored ZeroLinearOperator has no differentiable keyword and exactly the keywords dtype and device *)
+Lemma zero_shape ch dn nd : node_okb CZero ch dn nd = true ->
+  dn = [] /\ has_key k_device nd = true /\ has_key k_dtype nd = true /\
+  (forall k, In k (keys nd) -> k = k_dtype \/ k = k_device).
+Proof.
+  intros NOK. pose proof (node_ok_parts _ _ _ _ NOK) as P. cbv zeta in P.
+  destruct P as (LEN & NPOS & SD & SN & DJ & DIFF & PKW & KEYS & NORM & BD & HDT).
+  assert (TWO : forall k, In k (dn ++ keys nd) -> k = k_dtype \/ k = k_device).
+  { intros k Hk. destruct (KEYS k Hk) as [Hp|[Hv _]]; [|discriminate Hv].
+    revert Hp. unfold pkw_names. simpl. intros [<- | [<- | []]]; auto. }
+  assert (DN : dn = []).
+  { destruct dn as [|k r]; [reflexivity|]. exfalso.
+    assert (Hin : In k (k :: r)) by now left.
+    pose proof (forallb_In _ _ _ HDT Hin) as Q. simpl in Q.
+    destruct (TWO k (in_or_app _ _ _ (or_introl Hin))) as [-> | ->]; discriminate Q. }
+  subst dn. repeat split.
+  - eapply dt_key_in_nd; eauto; vm_compute; tauto.
+  - eapply dt_key_in_nd; eauto; vm_compute; tauto.
+  - intros k Hk. apply TWO. exact Hk.
+Qed.
+
+Lemma zero_ctor ch dn nd vdt vdev :
+  node_okb CZero ch dn nd = true ->
+  ctor defdt CZero (firstn (nargs ch dn) ch) (zero_kw vdt vdev) =
+  Some (AOp CZero ch dn (set_key k_dtype vdt (set_key k_device vdev nd)) (dflt CZero)).
+Proof.
+  intros NOK. destruct (zero_shape ch dn nd NOK) as (-> & H1 & H2 & TWO).
+  set (nd2 := set_key k_dtype vdt (set_key k_device vdev nd)).
+  assert (K : keys nd2 = keys nd) by (now apply keys_set2).
+  apply ctor_explicit.
+  - now rewrite (node_okb_keys CZero ch [] nd nd2 K).
+  - vm_compute. reflexivity.
+  - intros k. unfold nd2, zero_kw. rewrite !lookup_set_key. simpl.
+    destruct (Z.eqb_spec k k_dtype) as [->|N1]; [reflexivity|].
+    destruct (Z.eqb_spec k k_device) as [->|N2]; [reflexivity|].
+    destruct (lookup k nd) as [v|] eqn:Lk; [|reflexivity]. exfalso.
+    apply lookup_in in Lk. destruct (TWO k Lk); congruence.
+Qed.
+
+Lemma branch_to_zero d dev ch dn nd at_ n o' n' :
+  wfb (AOp CZero ch dn nd at_) = true ->
+  match keep_or k_dtype (dt_val d) nd, keep_or k_device (dev_val dev) nd with
+  | Some vdt, Some vdev =>
+      match ctor defdt CZero (firstn (nargs ch dn) ch) (zero_kw vdt vdev) with Some r => Some (r, n) | None => None end
+  | _, _ => None
+  end = Some (o', n') ->
+  strip o' = conv_to defdt d dev (AOp CZero ch dn nd at_) /\ n <= n'.
+Proof.
+  intros W E. rewrite wfb_op in W. apply andb_prop in W as [NOK _].
+  rewrite conv_to_op. change (guarded CZero) with false. change (cls_eqb CZero CCat) with false.
+  change (cls_eqb CZero CPermutation) with false. change (cls_eqb CZero CZero) with true. cbv iota.
+  unfold nd_to. change (keeps_dt CZero) with true. cbv iota.
+  destruct (keep_or k_dtype (dt_val d) nd) as [vdt|]; [|discriminate].
+  destruct (keep_or k_device (dev_val dev) nd) as [vdev|]; [|discriminate].
+  rewrite (zero_ctor ch dn nd vdt vdev NOK) in E. inversion E; subst. split; [reflexivity|lia].
+Qed.
+
+Lemma branch_type_zero d ch dn nd at_ n o' n' :
+  wfb (AOp CZero ch dn nd at_) = true ->
+  match lookup k_device nd with
+  | Some vdev => match ctor defdt CZero (firstn (nargs ch dn) ch) (zero_kw (VDtype d) vdev) with Some r => Some (r, n) | None => None end
+  | None => None
+  end = Some (o', n') ->
+  strip o' = AOp CZero (strip_list ch) dn (set_key k_dtype (VDtype d) nd) (dflt CZero) /\ n <= n'.
+Proof.
+  intros W E. rewrite wfb_op in W. apply andb_prop in W as [NOK _].
+  destruct (lookup k_device nd) as [vdev|] eqn:LD; [|discriminate].
+  rewrite (zero_ctor ch dn nd (VDtype d) vdev NOK) in E. inversion E; subst.
+  rewrite (set_key_same _ _ _ LD). split; [reflexivity|lia].
+Qed.
+
+(* a stored PermutationLinearOperator whose only keyword validate_args is a plain value *)
+Lemma branch_to_perm d ch dn nd at_ (n : nat) o' (n' : nat) :
+  wfb (AOp CPermutation ch dn nd at_) = true ->
+  match ch, lookup k_validate_args nd with
+  | [ATensor p; ATensor q], Some va =>
+      match ctor defdt CPermutation [ATensor p; ATensor q] [(k_validate_args, AOther va)] with
+      | Some (AOp c' ch' dn' nd' at') => Some (AOp c' ch' dn' nd' (perm_attrs d at'), n)
+      | _ => None
+      end
+  | _, _ => None
+  end = Some (o', n') ->
+  o' = AOp CPermutation ch dn nd (perm_attrs d (dflt CPermutation)) /\ n' = n.
+Proof.
+  intros W E. rewrite wfb_op in W. apply andb_prop in W as [NOK _].
+  pose proof (node_ok_parts _ _ _ _ NOK) as P. cbv zeta in P.
+  destruct P as (LEN & NPOS & SD & SN & DJ & DIFF & PKW & KEYS & NORM & BD & HDT).
+  destruct ch as [|[p| |] [|[q| |] [|? ?]]]; try discriminate E.
+  destruct (lookup k_validate_args nd) as [va|] eqn:LV; [|discriminate].
+  assert (ONE : forall k, In k (dn ++ keys nd) -> k = k_validate_args).
+  { intros k Hk. destruct (KEYS k Hk) as [Hp|[Hv _]]; [|discriminate Hv].
+    revert Hp. unfold pkw_names. simpl. intros [<- | []]; auto. }
+  assert (DN : dn = []).
+  { destruct dn as [|k r]; [reflexivity|]. exfalso.
+    assert (Hin : In k (k :: r)) by now left.
+    pose proof (ONE k (in_or_app _ _ _ (or_introl Hin))) as Ek. subst k.
+    apply (DJ k_validate_args Hin). eapply lookup_in; eauto. }
+  subst dn.
+  change [ATensor p; ATensor q] with (firstn (nargs [ATensor p; ATensor q] []) [ATensor p; ATensor q]) in E at 1.
+  rewrite (ctor_explicit CPermutation [ATensor p; ATensor q] nd [(k_validate_args, AOther va)] NOK) in E.
+  - inversion E; subst. split; reflexivity.
+  - vm_compute. reflexivity.
+  - intros k. simpl. destruct (Z.eqb_spec k k_validate_args) as [->|N]; [now rewrite LV|].
+    destruct (lookup k nd) as [v|] eqn:Lk; [|reflexivity]. exfalso.
+    apply lookup_in in Lk. apply N. apply ONE. exact Lk.
+Qed.
+
 (* ------------------------------------------------------------------ the theorem *)
 Theorem meth_call_conv : forall f, IHf f.
 Proof.
@@ -771,27 +963,46 @@ Proof.
     destruct (guarded c) eqn:G; [now apply (branch_to_guarded f IH d dev c ch dn nd at_ n o' n' G W0 L0 S E)|].
     destruct (cls_eqb c CCat) eqn:CAT.
     + apply cls_eqb_eq in CAT. subst c. now apply (branch_to_cat f IH d dev ch dn nd at_ n o' n' W0 L0 S E).
-    + assert (SA : Forall (fun x => safe_arg (MTo d dev) x = true) ch).
+    + destruct (cls_eqb c CZero) eqn:ZERO.
+      { apply cls_eqb_eq in ZERO. subst c. rewrite meth_call_S in E. cbv zeta in E.
+        change (guarded CZero) with false in E. change (cls_eqb CZero CCat) with false in E.
+        change (cls_eqb CZero CZero) with true in E. cbv iota in E.
+        now apply (branch_to_zero d dev ch dn nd at_ n o' n' W0 E). }
+      destruct (cls_eqb c CPermutation) eqn:PERM.
+      { apply cls_eqb_eq in PERM. subst c. rewrite meth_call_S in E. cbv zeta in E.
+        change (guarded CPermutation) with false in E. change (cls_eqb CPermutation CCat) with false in E.
+        change (cls_eqb CPermutation CZero) with false in E. change (cls_eqb CPermutation CPermutation) with true in E.
+        cbv iota in E. unfold conv. rewrite conv_to_op.
+        change (guarded CPermutation) with false. change (cls_eqb CPermutation CCat) with false.
+        change (cls_eqb CPermutation CPermutation) with true. cbv iota.
+        destruct (branch_to_perm d ch dn nd at_ n o' n' W0 E) as [-> ->]. split; [reflexivity|lia]. }
+      assert (SA : Forall (fun x => safe_arg (MTo d dev) x = true) ch).
       { destruct d as [d'|]; [|apply forall_true]. rewrite safeb_to_op in S. apply andb_prop in S as [F T].
-        rewrite to_safe_op, G, CAT in T. apply andb_prop in T as [_ T]. apply forallb_Forall in T.
+        rewrite to_safe_op, G, CAT, PERM, ZERO in T. apply andb_prop in T as [_ T]. apply forallb_Forall in T.
         eapply Forall_impl; [|exact T]. simpl. intros a Ha. now rewrite F, Ha. }
-      rewrite meth_call_S in E. cbv zeta in E. rewrite G, CAT in E.
+      rewrite meth_call_S in E. cbv zeta in E. rewrite G, CAT, ZERO, PERM in E.
       destruct (generic_ok f IH (MTo d dev) c ch dn nd n o' n' (children_ok (MTo d dev) c ch dn nd at_ W0 L0 SA) NOK E) as [C N].
-      split; [|exact N]. rewrite C. unfold conv. rewrite conv_to_op, G, CAT. reflexivity.
+      split; [|exact N]. rewrite C. unfold conv. rewrite conv_to_op, G, CAT, PERM, ZERO. reflexivity.
   - (* type *)
-    simpl in S. apply andb_prop in S as [F T]. apply andb_prop in T as [T _].
+    simpl in S. apply andb_prop in S as [F T]. apply andb_prop in T as [T TZ]. apply andb_prop in T as [T TI].
     destruct (cls_eqb c CIdentity) eqn:ID.
     + apply cls_eqb_eq in ID. subst c. rewrite meth_call_S in E. cbv zeta in E.
       change (cls_eqb CIdentity CIdentity) with true in E. cbv iota in E.
-      destruct (branch_type_identity d ch dn nd at_ n o' n' W0 E) as [C N]. split; [|exact N]. rewrite C. reflexivity.
+      destruct (branch_type_identity d ch dn nd at_ n o' n' W0 E) as [C N]. split; [|exact N]. rewrite C.
+      simpl in TI. destruct ch; [reflexivity|discriminate].
     + destruct (cls_eqb c CTransposePermutation) eqn:TP.
       * rewrite meth_call_S in E. cbv zeta in E. rewrite ID, TP in E. inversion E; subst. split; [|lia].
-        rewrite strip_op. simpl. now rewrite ID, TP.
-      * assert (SA : Forall (fun x => safe_arg (MType d) x = true) ch).
-        { apply forallb_Forall in T. eapply Forall_impl; [|exact T]. simpl. intros a Ha. now rewrite F, Ha. }
-        rewrite meth_call_S in E. cbv zeta in E. rewrite ID, TP in E.
-        destruct (generic_ok f IH (MType d) c ch dn nd n o' n' (children_ok (MType d) c ch dn nd at_ W0 L0 SA) NOK E) as [C N].
-        split; [|exact N]. rewrite C. simpl. now rewrite ID, TP.
+        apply cls_eqb_eq in TP. subst c. reflexivity.
+      * destruct (cls_eqb c CZero) eqn:ZERO.
+        -- apply cls_eqb_eq in ZERO. subst c. rewrite meth_call_S in E. cbv zeta in E.
+           change (cls_eqb CZero CIdentity) with false in E. change (cls_eqb CZero CTransposePermutation) with false in E.
+           change (cls_eqb CZero CZero) with true in E. cbv iota in E.
+           destruct (branch_type_zero d ch dn nd at_ n o' n' W0 E) as [C N]. split; [|exact N]. rewrite C. reflexivity.
+        -- assert (SA : Forall (fun x => safe_arg (MType d) x = true) ch).
+           { apply forallb_Forall in T. eapply Forall_impl; [|exact T]. simpl. intros a Ha. now rewrite F, Ha. }
+           rewrite meth_call_S in E. cbv zeta in E. rewrite ID, TP, ZERO in E.
+           destruct (generic_ok f IH (MType d) c ch dn nd n o' n' (children_ok (MType d) c ch dn nd at_ W0 L0 SA) NOK E) as [C N].
+           split; [|exact N]. rewrite C. simpl. unfold keeps_dt. now rewrite ID, TP, ZERO.
 Qed.
 
 
